@@ -163,11 +163,17 @@ class Lowering:
             return a != 0
         raise ValueError(rel)
 
-    def neq(self, x, y):
+    def neq(self, x, y, normalise=False):
         (a, b), (c, d) = self.q(x), self.q(y)
-        if z3.eq(b, d):
-            return a != c
-        return self.pm(a, d) != self.pm(c, b)
+        lhs, rhs = (a, c) if z3.eq(b, d) else (self.pm(a, d), self.pm(c, b))
+        if normalise:
+            # z3's own polynomial normaliser (sum of monomials): a goal whose two sides are the same polynomial becomes
+            # `0 != 0`, which the solver refutes at once instead of sending a high-degree identity to nlsat
+            e = z3.simplify(lhs - rhs, som=True)
+            if z3.is_rational_value(e) and e.numerator_as_long() == 0:
+                return z3.BoolVal(False, self.ctx)
+            return e != 0
+        return lhs != rhs
 
     def domain(self, names=None):
         out = []
@@ -282,6 +288,17 @@ def decide(pairs, pc, *, extra=(), pin=None, timeout_ms=30000, twin=True, box=No
         STATS["twin_" + twin_status] += 1
     s.add(z3.Or(*goals) if len(goals) > 1 else goals[0])
     r = str(s.check())
+    if r == "unknown" and pairs and not pin:
+        # second attempt with the goals in polynomial normal form (see Lowering.neq)
+        s = z3.Solver(ctx=lw.ctx)
+        s.set("timeout", int(timeout_ms))
+        for a in assumptions:
+            s.add(a)
+        goals = [lw.neq(a, b, normalise=True) for a, b in pairs if a is not b] + [z3.Not(lw.rel(d, rel)) for d, rel in claims]
+        s.add(z3.Or(*goals) if len(goals) > 1 else goals[0])
+        r = str(s.check())
+        nq += 1
+        STATS["normalised_retry_" + r] = STATS.get("normalised_retry_" + r, 0) + 1
     if dump is not None and r in ("sat", "unsat"):
         # solver diff (thorough tier, seeded sample): the same query through the z3 4.8.12 and cvc5 1.0.3 binaries
         dump.append(cross_check(s.to_smt2(), r))
